@@ -82,6 +82,45 @@ Theorem C14_reported_height_durable_full : forall (h1 h2 : list item) (n : N),
 Proof. exact reported_height_durable. Qed.
 Print Assumptions C14_reported_height_durable_full.
 
+(* ---- SetHeight never lowers and always raises, on every height --------------------------------------- *)
+(* one SetHeight(n) on ANY image whose height record is readable - for all n and all recorded heights cur, on either
+   side of any byte boundary (255/256, 65535/65536, 2^32-1/2^32, ...): no error, and the recorded height afterwards is
+   max cur n *)
+Theorem C14_set_height_max_full : forall (m : img) (n cur : N),
+  c_height m = Some cur ->
+  snd (istep m (IOp (OSetHeight n))) = Some RUnit /\
+  c_height (fst (istep m (IOp (OSetHeight n)))) = Some (N.max cur n).
+Proof. exact set_height_max. Qed.
+Print Assumptions C14_set_height_max_full.
+
+(* the same as the caller sees it, after ANY history of operations, reopenings, crashes and write faults: Height()
+   reports some cur, and SetHeight(n); Height() returns no error and reports max cur n *)
+Theorem C14_set_height_then_height_full : forall (h : list item) (n : N),
+  exists cur, snd (step (final h) OHeight) = RHeight cur /\
+    outputs (h ++ [IOp (OSetHeight n); IOp OHeight]) = (outputs h ++ [Some RUnit; Some (RHeight (N.max cur n))])%list.
+Proof. exact set_height_then_height. Qed.
+Print Assumptions C14_set_height_then_height_full.
+
+(* the height record (8 bytes, little-endian): decoding what encodeHeight wrote gives the height back, for every
+   uint64; hence different heights are different records *)
+Theorem C14_height_codec_full : forall n : N, (n < 2 ^ 64)%N -> dec_height (enc_height n) = Some n.
+Proof. exact height_codec. Qed.
+Print Assumptions C14_height_codec_full.
+
+Theorem C14_height_record_injective_full : forall a b : N,
+  (a < 2 ^ 64)%N -> (b < 2 ^ 64)%N -> enc_height a = enc_height b -> a = b.
+Proof. exact enc_height_inj. Qed.
+Print Assumptions C14_height_record_injective_full.
+
+(* a block save is exactly ONE atomic write - for every image, header, data and signature record (the model never
+   inspects the data: whatever its size) - and header, data, signature record and hash index are all inside it *)
+Theorem C14_save_one_batch_full : forall (m : img) hd d s,
+  exists ps, fst (step m (OSave hd d s)) = [WBatch ps] /\
+    In (Put (header_key (hheight hd)) (VHeader hd)) ps /\ In (Put (data_key (hheight hd)) (VData d)) ps /\
+    In (Put (sig_key (hheight hd)) (VSig s)) ps /\ In (Put (index_key (hhash hd)) (VHeight (hheight hd))) ps.
+Proof. exact save_one_batch. Qed.
+Print Assumptions C14_save_one_batch_full.
+
 (* ---- non-vacuity: a concrete history meeting the hypotheses, with an overwrite at one height by a
    header of a different hash, a crash inside a save, a reopen, and the node's metadata keys ------- *)
 Definition hA := {| hid := 1; hheight := 5; hhash := "aa" |}.
@@ -123,3 +162,27 @@ Example node_meta_keys_clean :
   forallb clean_meta ["d"; "l"; "last-submitted-header-height"; "last-submitted-data-height"; "rhb/12/h"; "rhb/12/d"] = true
   /\ forallb (fun k => negb (clean_meta k)) [""; "a//b"; "../h/1"; "a/"; "./x"] = true.
 Proof. vm_compute. split; reflexivity. Qed.
+
+(* the order of the encoded height records as byte strings is NOT the order of the heights (the low byte comes first):
+   across a multiple of 256 it is wrong in both directions - which is why SetHeight must compare the decoded numbers,
+   as the model does; on these very heights the model raises and does not lower *)
+Example ex_record_order_is_not_height_order :
+  lex_leb (enc_height 256) (enc_height 255) = true /\ (256 <=? 255)%N = false /\
+  lex_leb (enc_height 65535) (enc_height 65536) = false /\ (65535 <=? 65536)%N = true /\
+  lex_leb (enc_height 4294967296) (enc_height 4294967295) = true.
+Proof. vm_compute. repeat split; reflexivity. Qed.
+Example ex_set_height_across_byte_boundaries :
+  outputs [ IOp (OSetHeight 255); IOp (OSetHeight 256); IOp OHeight; IOp (OSetHeight 255); IOp OHeight;
+            IOp (OSetHeight 65536); IOp (OSetHeight 65535); IOp OHeight; IReopen;
+            IOp (OSetHeight 4294967295); IOp (OSetHeight 4294967296); IOp OHeight;
+            ICrash (OSetHeight 4294967297) 0; IOp OHeight; ICrash (OSetHeight 4294967297) 1; IOp OHeight;
+            IOp (OSetHeight 18446744073709551615); IOp (OSetHeight 18446744073709551360); IOp OHeight ] =
+  [ Some RUnit; Some RUnit; Some (RHeight 256); Some RUnit; Some (RHeight 256);
+    Some RUnit; Some RUnit; Some (RHeight 65536); None;
+    Some RUnit; Some RUnit; Some (RHeight 4294967296);
+    None; Some (RHeight 4294967296); None; Some (RHeight 4294967297);
+    Some RUnit; Some RUnit; Some (RHeight 18446744073709551615) ].
+Proof. vm_compute. reflexivity. Qed.
+Example ex_height_codec : enc_height 256 = [0; 1; 0; 0; 0; 0; 0; 0]%N /\ dec_height (enc_height 18446744073709551615) = Some 18446744073709551615%N
+  /\ dec_height [1; 2; 3]%N = None.
+Proof. vm_compute. repeat split; reflexivity. Qed.
